@@ -82,6 +82,8 @@ type Univ struct {
 	False *Term
 	nvar  int
 	Funs  map[string]*FunDecl
+	// AppEval, when set, evaluates an uninterpreted application under a model (functional consistency + fallbacks)
+	AppEval func(t *Term, env map[*Term]uint64, memo map[*Term]uint64) uint64
 }
 
 type FunDecl struct {
@@ -883,8 +885,14 @@ func (u *Univ) Eval(t *Term, env map[*Term]uint64, memo map[*Term]uint64) uint64
 	switch t.Op {
 	case OConst:
 		r = t.Val
-	case OVar, OApp:
+	case OVar:
 		r = env[t] & mask1(t.W)
+	case OApp:
+		if u.AppEval != nil {
+			r = u.AppEval(t, env, memo) & mask1(t.W)
+		} else {
+			r = env[t] & mask1(t.W)
+		}
 	case ONot:
 		r = 1 - ev(0)
 	case OAnd:
